@@ -90,6 +90,18 @@ class Check:
             check_complete(p, evs)
             traces.setdefault(c, []).extend(evs)
         traces = self.post_events(ctx, traces)
+        if os.environ.get("VERIF_CORRUPT"):
+            # binding self-test (DESIGN 7): flip one recorded result value per configuration; the judge must reject exactly there
+            for c, evs in traces.items():
+                cand = [e for e in evs if isinstance(e.get("out"), dict) and any(isinstance(v, list) and v for v in e["out"].values())
+                        and e["e"] not in ("Reset", "Snapshot", "Meta")]
+                if cand:
+                    e = cand[len(cand) // 2]
+                    k = [k for k, v in e["out"].items() if isinstance(v, list) and v][0]
+                    v = e["out"][k]
+                    i = len(v) // 2
+                    v[i] = [v[i][0] + 1, v[i][1]] if isinstance(v[i], list) else v[i] + 1
+                    log("CORRUPTED %s [%s] out.%s[%d]" % (e["case"], c, k, i))
         nraw = sum(len(v) for v in traces.values())
         log("ran %d binaries, %d events in %.0fs" % (len(jobs), nraw, time.time() - t))
         if self.joined:
@@ -157,6 +169,7 @@ class Check:
                 f.write(json.dumps(e, separators=(",", ":")) + "\n")
         again, _ = judge(ctx, self.trace_module, self.trace_cfg, [p])
         keys = {(r["case"], r["cfg"]) for r in again}
+        tags = {(r["case"], r["cfg"]): r.get("tag", "") for r in again}
         kept = [r for r in rejects if (r["case"], r["cfg"]) in keys]
         if len(kept) != len(rejects):
             ctx.notes.append("%d rejections did not repeat and were dropped" % (len(rejects) - len(kept)))
